@@ -27,6 +27,7 @@ Fixpoint upd {A} (l : list A) (i : nat) (v : A) : list A :=
 Definition chk (len i : nat) : nat := if i <? len then 0 else 1.
 
 Record state := mkS {
+  tcfg : bool;              (* a tree code is selected (gravity or collision): reb_simulation_add puts the particle into the tree *)
   mem : list particle;      (* r->particles[0 .. N_allocated) *)
   sN : nat;                 (* r->N *)
   sNact : Z;                (* r->N_active *)
@@ -36,7 +37,7 @@ Record state := mkS {
   tree : bool;              (* r->tree_root != NULL *)
   oob : nat                 (* out-of-bounds accesses so far *)
 }.
-Definition init (tr : bool) : state := mkS [] 0 (-1) 0 [] 0 tr 0.
+Definition init (tr : bool) : state := mkS tr [] 0 (-1) 0 [] 0 tr 0.
 
 Inductive op :=
 | Add (p : particle)                 (* reb_simulation_add *)
@@ -67,7 +68,7 @@ Fixpoint grow_alloc (fuel alloc n : nat) : nat :=
 Definition add (s : state) (p : particle) : state :=
   let alloc := grow_alloc (S (S (sN s))) (length (mem s)) (sN s) in
   let mem1 := mem s ++ repeat pzero (alloc - length (mem s)) in      (* realloc + memset of the new part *)
-  mkS (upd mem1 (sN s) p) (S (sN s)) (sNact s) (sNvar s) (tab s) (nlook s) (tree s)
+  mkS (tcfg s) (upd mem1 (sN s) p) (S (sN s)) (sNact s) (sNvar s) (tab s) (nlook s) (tree s || tcfg s)
       (oob s + chk (length mem1) (sN s)).
 
 (* ------------------------------------------------------------------ reb_search_lookup_table *)
@@ -131,11 +132,11 @@ Fixpoint rebuild_loop (idxs : list nat) (m : list particle) (t : list (N * nat))
 
 Definition rebuild (s : state) : state :=
   let '(t, nh, ob) := rebuild_loop (seq 0 (sN s)) (mem s) (tab s) 0 None (oob s) in
-  mkS (mem s) (sN s) (sNact s) (sNvar s) (isort (firstn nh t) ++ skipn nh t) nh (tree s) ob.
+  mkS (tcfg s) (mem s) (sN s) (sNact s) (sNvar s) (isort (firstn nh t) ++ skipn nh t) nh (tree s) ob.
 
 (* ------------------------------------------------------------------ reb_simulation_particle_by_hash *)
 Definition with_oob (s : state) (ob : nat) : state :=
-  mkS (mem s) (sN s) (sNact s) (sNvar s) (tab s) (nlook s) (tree s) ob.
+  mkS (tcfg s) (mem s) (sN s) (sNact s) (sNvar s) (tab s) (nlook s) (tree s) ob.
 
 Definition by_hash (s : state) (h : N) : state * option nat :=
   let '(r1, ob1) := search_tab s h in
@@ -165,20 +166,20 @@ Definition remove_idx (s : state) (index : Z) (keep : bool) : state * result :=
   else
     let i := Z.to_nat index in
     if (sN s =? 1) && negb (tree s) then
-      (mkS (mem s) 0 (if (index <? sNact s)%Z then (sNact s - 1)%Z else sNact s) (sNvar s) (tab s) (nlook s)
+      (mkS (tcfg s) (mem s) 0 (if (index <? sNact s)%Z then (sNact s - 1)%Z else sNact s) (sNvar s) (tab s) (nlook s)
            (tree s) (oob s), RRemoved i)
     else if keep then
         let n1 := sN s - 1 in
         let nact := if (index <? sNact s)%Z then (sNact s - 1)%Z else sNact s in
         let '(m1, ob) := shift (n1 - i) i (mem s) (oob s) in
-        (mkS m1 n1 nact (sNvar s) (tab s) (nlook s) (tree s) ob, RRemoved i)
+        (mkS (tcfg s) m1 n1 nact (sNvar s) (tab s) (nlook s) (tree s) ob, RRemoved i)
     else if tree s then
-      (mkS (upd (mem s) i (flag_nan (nth i (mem s) pzero))) (sN s) (sNact s) (sNvar s) (tab s) (nlook s)
+      (mkS (tcfg s) (upd (mem s) i (flag_nan (nth i (mem s) pzero))) (sN s) (sNact s) (sNvar s) (tab s) (nlook s)
            (tree s) (oob s + chk (length (mem s)) i), RFlagged i)
     else
       (* N--; particles[index] = particles[N]; if (N_active > N) N_active = N; *)
       let n1 := sN s - 1 in
-      (mkS (upd (mem s) i (nth n1 (mem s) pzero)) n1
+      (mkS (tcfg s) (upd (mem s) i (nth n1 (mem s) pzero)) n1
            (if (Z.of_nat n1 <? sNact s)%Z then Z.of_nat n1 else sNact s) (sNvar s) (tab s) (nlook s) (tree s)
            (oob s + chk (length (mem s)) n1 + chk (length (mem s)) i), RRemoved i).
 
@@ -194,13 +195,14 @@ Definition remove_hash (s : state) (h : N) (keep : bool) : state * result :=
 Definition set_hash (s : state) (i : nat) (h : N) : state * result :=
   if i <? sN s then
     let p := nth i (mem s) pzero in
-    (mkS (upd (mem s) i (mkP h (pid p) (pnan p))) (sN s) (sNact s) (sNvar s) (tab s) (nlook s) (tree s)
+    (mkS (tcfg s) (upd (mem s) i (mkP h (pid p) (pnan p))) (sN s) (sNact s) (sNvar s) (tab s) (nlook s) (tree s)
          (oob s + chk (length (mem s)) i), RVoid)
   else (s, RFail).     (* the Python container raises AttributeError; not reachable through the C API *)
 
-(* r->N=0; N_allocated=0; N_active=-1; N_var=0; free(particles). The lookup table is left as it is. *)
+(* free_particle_ap for every particle (see Callback.v); reb_tree_delete (tree_root = NULL); r->N=0; N_allocated=0;
+   N_active=-1; N_var=0; free(particles). The lookup table is left as it is. *)
 Definition remove_all (s : state) : state :=
-  mkS [] 0 (-1) 0 (tab s) (nlook s) (tree s) (oob s).
+  mkS (tcfg s) [] 0 (-1) 0 (tab s) (nlook s) false (oob s).
 
 Definition step (s : state) (o : op) : state * result :=
   match o with
@@ -210,8 +212,8 @@ Definition step (s : state) (o : op) : state * result :=
   | SetHash i h => set_hash s i h
   | Lookup h => let '(s1, r) := by_hash s h in (s1, match r with Some i => RFound i | None => RNull end)
   | RemoveAll => (remove_all s, RVoid)
-  | SetNActive z => (mkS (mem s) (sN s) z (sNvar s) (tab s) (nlook s) (tree s) (oob s), RVoid)
-  | SetNVar k => (mkS (mem s) (sN s) (sNact s) k (tab s) (nlook s) (tree s) (oob s), RVoid)
+  | SetNActive z => (mkS (tcfg s) (mem s) (sN s) z (sNvar s) (tab s) (nlook s) (tree s) (oob s), RVoid)
+  | SetNVar k => (mkS (tcfg s) (mem s) (sN s) (sNact s) k (tab s) (nlook s) (tree s) (oob s), RVoid)
   end.
 
 Fixpoint run (s : state) (ops : list op) : state * list result :=
@@ -222,8 +224,8 @@ Fixpoint run (s : state) (ops : list op) : state * list result :=
 
 (* ------------------------------------------------------------------ abstract specification *)
 (* The simulation as the user sees it: the list of live particles, N_active, N_var, tree present. *)
-Record astate := mkA { aps : list particle; aNact : Z; aNvar : nat; atree : bool }.
-Definition abs (s : state) : astate := mkA (firstn (sN s) (mem s)) (sNact s) (sNvar s) (tree s).
+Record astate := mkA { acfg : bool; aps : list particle; aNact : Z; aNvar : nat; atree : bool }.
+Definition abs (s : state) : astate := mkA (tcfg s) (firstn (sN s) (mem s)) (sNact s) (sNvar s) (tree s).
 
 Definition remove_nth {A} (i : nat) (l : list A) : list A := firstn i l ++ skipn (S i) l.
 (* unsorted removal: the last particle is moved into the hole *)
@@ -248,10 +250,10 @@ Definition dec_nact (a : astate) (i : nat) : Z :=
 Definition clamp_nact (a : astate) : Z :=
   if (Z.of_nat (length (aps a) - 1) <? aNact a)%Z then Z.of_nat (length (aps a) - 1) else aNact a.
 Definition aremove (a : astate) (i : nat) (keep : bool) : astate :=
-  if (length (aps a) =? 1) && negb (atree a) then mkA [] (dec_nact a i) (aNvar a) (atree a)
-  else if keep then mkA (remove_nth i (aps a)) (dec_nact a i) (aNvar a) (atree a)
-  else if atree a then mkA (upd (aps a) i (flag_nan (nth i (aps a) pzero))) (aNact a) (aNvar a) (atree a)
-  else mkA (remove_swap i (aps a)) (clamp_nact a) (aNvar a) (atree a).
+  if (length (aps a) =? 1) && negb (atree a) then mkA (acfg a) [] (dec_nact a i) (aNvar a) (atree a)
+  else if keep then mkA (acfg a) (remove_nth i (aps a)) (dec_nact a i) (aNvar a) (atree a)
+  else if atree a then mkA (acfg a) (upd (aps a) i (flag_nan (nth i (aps a) pzero))) (aNact a) (aNvar a) (atree a)
+  else mkA (acfg a) (remove_swap i (aps a)) (clamp_nact a) (aNvar a) (atree a).
 
 Definition removed_result (a : astate) (i : nat) (keep : bool) : result :=
   if negb keep && atree a then RFlagged i else RRemoved i.
@@ -277,12 +279,12 @@ Definition res_ok (a : astate) (o : op) (r : result) : Prop :=
 (* post-state given the reported result *)
 Definition aspec (a : astate) (o : op) (r : result) : astate :=
   match o, r with
-  | Add p, _ => mkA (aps a ++ [p]) (aNact a) (aNvar a) (atree a)
-  | RemoveAll, _ => mkA [] (-1) 0 (atree a)
-  | SetNActive z, _ => mkA (aps a) z (aNvar a) (atree a)
-  | SetNVar k, _ => mkA (aps a) (aNact a) k (atree a)
+  | Add p, _ => mkA (acfg a) (aps a ++ [p]) (aNact a) (aNvar a) (atree a || acfg a)
+  | RemoveAll, _ => mkA (acfg a) [] (-1) 0 false
+  | SetNActive z, _ => mkA (acfg a) (aps a) z (aNvar a) (atree a)
+  | SetNVar k, _ => mkA (acfg a) (aps a) (aNact a) k (atree a)
   | SetHash i h, RVoid =>
-      let p := nth i (aps a) pzero in mkA (upd (aps a) i (mkP h (pid p) (pnan p))) (aNact a) (aNvar a) (atree a)
+      let p := nth i (aps a) pzero in mkA (acfg a) (upd (aps a) i (mkP h (pid p) (pnan p))) (aNact a) (aNvar a) (atree a)
   | RemoveIdx _ keep, RRemoved i | RemoveIdx _ keep, RFlagged i
   | RemoveHash _ keep, RRemoved i | RemoveHash _ keep, RFlagged i => aremove a i keep
   | _, _ => a
